@@ -30,6 +30,7 @@ pub fn generate(opts: &Opts, sink: &mut CaseSink) {
     let mut rng = Rng::new(opts.seed);
     let n = (if opts.thorough { 4000 } else { 500 }) / opts.scale;
     zip_merge_cases(&mut rng, sink, n);
+    zip_ts_cases(&mut rng, sink, n / 4);
     generate_rest(opts, sink, rng, n);
 }
 
@@ -69,6 +70,55 @@ fn zip_merge_cases(rng: &mut Rng, sink: &mut CaseSink, n: usize) {
             sink.push(format!("(CMerge {} {} {} {})", nl.coq(), nr.coq(), list_coq(dels.iter().map(del_coq).collect()), out.coq()),
                       json!({"kind": "merge", "left_replicas": nl, "right_replicas": nr, "deliveries": format!("{:?}", dels), "impl_output": format!("{:?}", out)}), np >= 2);
         }
+    }
+}
+
+/// zip of two TIMESTAMPED inputs whose senders emit consistent timestamps and watermarks (a
+/// watermark is below every later timestamp of its sender), one side often running ahead of
+/// the other, so that stashed elements are paired after watermarks have passed (C06: the pair
+/// carries the LATER of the two timestamps)
+pub fn zip_ts_cases(rng: &mut Rng, sink: &mut CaseSink, n: usize) {
+    for _ in 0..n {
+        let (nl, nr) = (rng.range(1, 2) as usize, rng.range(1, 2) as usize);
+        let mk = |rng: &mut Rng, base: i64, lag: i64| -> Vec<Vec<E<i64>>> {
+            let mut st = vec![];
+            let mut ts = rng.range(0, 3) + lag;
+            let mut j = 0;
+            for _ in 0..rng.below(9) {
+                if rng.chance(1, 3) { st.push(E::Watermark(ts)); ts += 1; }
+                else { ts += rng.range(0, 3); j += 1; st.push(E::Timestamped(base + j, ts + 1)); }
+            }
+            st.push(E::Watermark(ts + 1));
+            st.push(E::FlushAndRestart);
+            let mut bs: Vec<Vec<E<i64>>> = vec![];
+            let mut cur = vec![];
+            for e in st { let far = matches!(e, E::FlushAndRestart); cur.push(e); if far || rng.chance(1, 3) { bs.push(std::mem::take(&mut cur)); } }
+            if !cur.is_empty() { bs.push(cur); }
+            bs.push(vec![E::Terminate]);
+            bs
+        };
+        let lag = if rng.chance(1, 2) { rng.range(3, 12) } else { 0 };
+        let mut lists: Vec<(bool, usize, Vec<Vec<E<i64>>>)> = vec![];
+        for s in 0..nl { lists.push((true, s, mk(rng, 1000 * (s as i64 + 1), 0))); }
+        for s in 0..nr { lists.push((false, s, mk(rng, 5000 + 1000 * s as i64, lag))); }
+        let mut dels: Vec<Del<i64, i64>> = vec![];
+        let mut terms = vec![];
+        for l in lists.iter_mut() { let t = l.2.pop().unwrap(); terms.push((l.0, l.1, t)); }
+        loop {
+            let live: Vec<usize> = (0..lists.len()).filter(|&i| !lists[i].2.is_empty()).collect();
+            if live.is_empty() { break; }
+            // biased: keep delivering from the same list for a while (one side runs ahead)
+            let i = if rng.chance(1, 2) { live[0] } else { *rng.pick(&live) };
+            let b = lists[i].2.remove(0);
+            dels.push(if lists[i].0 { Del::L(lists[i].1, b) } else { Del::R(lists[i].1, b) });
+        }
+        for (left, s, t) in terms { dels.push(if left { Del::L(s, t) } else { Del::R(s, t) }); }
+        let out = drive_binary_chain(nl as u64, nr as u64, dels.clone(), |x, y| { let (p, q) = (block_id(&x), block_id(&y)); (x.zip(y), p, q) })
+            .unwrap_or_else(|e| { eprintln!("C09 zip(ts): {e}"); vec![E::Item((i64::MIN, 0))] });
+        let np = out.iter().filter(|e| matches!(e, E::Timestamped(_, _))).count();
+        sink.count("zip_timestamped_with_watermarks");
+        sink.push(format!("(CZip {} {} {} {})", nl.coq(), nr.coq(), list_coq(dels.iter().map(del_coq).collect()), out.coq()),
+                  json!({"kind": "zip, timestamped inputs with watermarks", "left_replicas": nl, "right_replicas": nr, "deliveries": format!("{:?}", dels), "impl_output": format!("{:?}", out)}), np >= 2);
     }
 }
 
